@@ -355,12 +355,8 @@ theorem innerLoop_fromSize (now : Time) (fuel : Nat) (d : Dev) (a : Action) (o :
 
 theorem finishConnectOne_fromSize (c : CS) : (finishConnectOne c).1.dev.fromSize = c.dev.fromSize := by
   unfold finishConnectOne; grind
-theorem connectOne_fromSize (c : CS) : (connectOne c).1.dev.fromSize = c.dev.fromSize := by
-  have := finishConnectOne_fromSize
-  unfold connectOne; grind
-theorem tcpConnect_fromSize (c : CS) : (tcpConnect c).1.dev.fromSize = c.dev.fromSize := by
-  have := connectOne_fromSize
-  unfold tcpConnect; grind
+theorem connectOne_fromSize (c : CS) : (connectOne c).1.dev.fromSize = c.dev.fromSize := (connectOne_frame c).dev.fromSize
+theorem tcpConnect_fromSize (c : CS) : (tcpConnect c).1.dev.fromSize = c.dev.fromSize := (tcpConnect_frame c).dev.fromSize
 theorem pipeConnect_fromSize (c : CS) : (pipeConnect c).1.dev.fromSize = c.dev.fromSize := by
   unfold pipeConnect; grind
 theorem enqueueLogin_fromSize (d : Dev) : (enqueueLogin d).fromSize = d.fromSize := rfl
